@@ -2,6 +2,8 @@ import CueVerif.Driver.Proto
 import CueVerif.Spec.Json
 import CueVerif.Model.Json
 import CueVerif.Driver.C10Doc
+import CueVerif.Driver.C10Extract
+import CueVerif.Driver.C10Err
 /-!
 Protocol handler for C10 (byte strings in hex, "-" = empty):
 
@@ -21,6 +23,8 @@ Protocol handler for C10 (byte strings in hex, "-" = empty):
   doc <tree words>          encoder: hex of Value.MarshalJSON of the value tree (Driver/C10Doc.lean)
   mstream <tree words of a list>   hex of pkg/encoding/json.MarshalStream
   docdata <text>            SPEC: `ok <tree words>` of the data the reference parser reads | `invalid`
+  extract <env> <nq> <text>, extractdata <env> <nq> <text>   reading direction (Driver/C10Extract.lean)
+  encerr <tree words>   Value.MarshalJSON incl. error branches, bytes, non-finite (Driver/C10Err.lean)
   jstream <text>            SPEC: `<n> <eof|err> | tree | tree …` the values of a stream of JSON texts
 -/
 namespace CueVerif.Driver.C10
@@ -52,6 +56,12 @@ def decStr : ApdDec × Bool → String
 /-- protocol handler for C10: words of one op line (after the property id) → answer -/
 def handle (ws : List String) : String :=
   match C10Doc.handleDoc ws with
+  | some a => a
+  | none =>
+  match C10Extract.handleExtract ws with
+  | some a => a
+  | none =>
+  match C10Err.handleErr ws with
   | some a => a
   | none =>
   match ws with
